@@ -6,9 +6,9 @@ package main
 
 import (
 	"fmt"
-	"os"
 	"go/token"
 	"go/types"
+	"os"
 	"runtime"
 	"slices"
 	"strings"
@@ -131,7 +131,7 @@ func (fr *frame) runDefer(d *deferred) {
 // isControl reports panics that must unwind the whole path without running target defers.
 func isControl(r interface{}) bool {
 	switch r.(type) {
-	case unsupported, pathEnd, budgetExceeded:
+	case unsupported, pathEnd, budgetExceeded, exitPanic:
 		return true
 	case runtime.Error:
 		return true // executor bug; surfaces as engine error
